@@ -5,6 +5,19 @@ V = os.path.dirname(os.path.dirname(os.path.abspath(__file__)))
 props = [json.loads(l) for l in open(os.path.join(V, "properties.jsonl"))]
 
 CLAIMED = {
+ "C07": dict(
+  text="Machine-checked proof (Coq 8.16), for arbitrary acquisition value tables including ties, that the model of optimize_acqf_discrete returns min(q, #choices) distinct choices in non-increasing order, each maximal among those not picked before (first index on ties), and that selecting the q best of the pooled per-objective picks (the contract of optimize_decoupled_acqf_discrete) is selecting the q best (design, objective) pairs of the whole table. Tied to /repo by exact correspondence on enumerated / random tables and by whole-step checks with recording proxies (active designs only, recomputed acquisition maximisers, data reaching the model).",
+  note="Trusted: Coq kernel; hand-written Optimize.v (correspondence); argpartition/argsort tie order unspecified (contract checked); evaluating() data flow checked at run time only; extraction + driver. All theorems closed under the global context.",
+  technique="Coq proof (induction over the pick loop, counting argument) + table correspondence + recorded-step checks", design="4/C07"),
+ "C14": dict(
+  text="Machine-checked proof (Coq 8.16) that the model of DesignSpace.update gives every updated design (single designs included) the region built from ITS OWN prediction (mean -/+ std*scale, centred at the mean; with iterative intersection: intersect(old, new)), leaves every other region untouched and preserves lower <= upper; rectangle update / intersect / centre, the intersection test and the ellipsoidal update are regenerated from the source and proved equal to the model, as is the zip data flow of both update methods. Tied to /repo by exact correspondence on update sequences over fixed and refined adaptive design spaces (all regions compared after every update) and against the three real GP wrappers.",
+  note="Trusted: Coq kernel; translator for the region methods and the update data flow; hand-written ds_update (correspondence); gpytorch modelled; extraction + driver. Known finding C14-touching-intersect. All theorems closed under the global context.",
+  technique="Coq proof over regenerated region methods + update-sequence correspondence", design="4/C14"),
+ "C16": dict(
+  text="Machine-checked proof (Coq 8.16), for every history of add_sample / update / clear / flag changes, that the store of a design is exactly the samples added for it since the last clear (independent of batching and interleaving), that predict after update returns their arithmetic mean / population variance (noise variance below two samples, zero mean without samples, zero mean / unit variance when untracked), that these are permutation invariant, and that a batch with an out-of-range index is rejected without effect. The hand-written state machine is tied to vopy/models/empirical_mean_var.py by correspondence on random operation histories incl. malformed batches.",
+  note="Trusted: Coq kernel; hand-written Empirical.v (correspondence); numpy mean/var modelled (1e-12); negative indices outside the model; extraction + driver. All theorems closed under the global context.",
+  technique="Coq proof (state-machine invariant over op sequences) + op-history correspondence", design="4/C16"),
+
  "C01": dict(
   text="Machine-checked proof (Coq 8.16) of the accuracy guarantee for EVERY history of region assignments: for the PaVeBa family and for Auer, if every round satisfies what validity plus sound/complete region tests provide (domination test sound, transitive and irreflexive on displayed regions; cover test complete), then at termination every excluded design is weakly dominated by a member of P and no member of P is exceeded by more than eps along every unit direction (invariant argument incl. the maximal-dominator lemma for same-round chains and the stale-region invariant for non-useful members). The rounds are the ones regenerated from the source; the hypotheses are discharged for hyper-rectangles from the verified vertex test and Fourier–Motzkin cover decider under cone_slack_ok. Tied to /repo additionally by valid-by-construction (incl. facet-adversarial) stub histories run to termination on the real algorithm objects and judged exactly.",
   note="Trusted: as C02, plus: for ellipsoidal variants the completeness of the cvxpy cover test is an assumption; alpha_n is taken from the run (C17). Known finding C01-rect-slack-obtuse (cone_slack_ok fails for obtuse cones with rectangular PaVeBaGP/PartialGP). All theorems closed under the global context.",
